@@ -3,6 +3,7 @@ package seq
 import (
 	"bytes"
 	"encoding/json"
+	"errors"
 	"fmt"
 	"io"
 	"time"
@@ -257,6 +258,9 @@ type c18CloseCase struct {
 	Code    int    `json:"code"`    // status of the peer's Close frame (kind close); 1005 = empty payload
 	Reason  int    `json:"reason"`  // reason length
 	Prelude string `json:"prelude"` // none | message | message-small-buffer | empty-message
+	// EchoFails: the transport refuses every write, so the Close frame received
+	// cannot be echoed; how the close reads through NetConn does not depend on that
+	EchoFails bool `json:"echo_fails,omitempty"`
 }
 
 var c18Preludes = []string{"none", "message", "message-small-buffer", "empty-message"}
@@ -272,6 +276,7 @@ func c18CloseCases() []c18CloseCase {
 					for _, rl := range []int{0, 20} {
 						out = append(out, c18CloseCase{Kind: "close", BClient: bc, Type: typ, Code: code, Reason: rl, Prelude: pre})
 					}
+					out = append(out, c18CloseCase{Kind: "close", BClient: bc, Type: typ, Code: code, Reason: 3, Prelude: pre, EchoFails: true})
 				}
 				out = append(out, c18CloseCase{Kind: "wrong-type", BClient: bc, Type: typ, Prelude: pre})
 			}
@@ -309,6 +314,9 @@ func c18CloseOne(c *fw.Ctx, cs c18CloseCase) bool {
 	defer w.Stop()
 	ctx := w.Ctx
 	t := mxNewTransport(mxEncode(fs...))
+	if cs.EchoFails {
+		t.WriteErr = errors.New("peer is gone")
+	}
 	conn := mxConn(t, cs.BClient, "")
 	defer conn.CloseNow()
 
